@@ -3,6 +3,7 @@
     Statements only; proofs in Proofs/Tdc.v. *)
 From Verif Require Import Base.Prelude Gen.Constants Model.Tdc Proofs.Tdc.
 From Verif Require Model.Reuse Proofs.Reuse.
+From Verif Require Model.IdZero Proofs.IdZero.
 Open Scope N_scope.
 
 (** For every schedule (label list) whose environment obeys the scope clause
@@ -97,3 +98,19 @@ Example c01_reuse_nonvacuous :
   | None => False
   end.
 Proof. vm_compute. repeat split; reflexivity. Qed.
+
+(** * DoH and DoQ: id 0 on the wire, the caller's id on the reply *)
+Import Model.IdZero Proofs.IdZero.
+
+(** The query goes out with message id 0 and is otherwise untouched. *)
+Theorem c01_wire_id_zero q :
+  (2 <= length q)%nat -> get_id (wire_query q) = 0 /\ skipn 2 (wire_query q) = skipn 2 q /\ length (wire_query q) = length q.
+Proof. exact (wire_id_zero q). Qed.
+Print Assumptions c01_wire_id_zero.
+
+(** The reply comes back with the caller's original id (any id, 0 and 0xFFFF included) and is otherwise untouched. *)
+Theorem c01_reply_id_restored q r :
+  Forall (fun b => b < 256) q -> (2 <= length r)%nat ->
+  get_id (returned_reply q r) = get_id q /\ skipn 2 (returned_reply q r) = skipn 2 r /\ length (returned_reply q r) = length r.
+Proof. exact (reply_id_restored q r). Qed.
+Print Assumptions c01_reply_id_restored.
